@@ -458,11 +458,28 @@ class Registry:
             else:
                 raise AnalysisError(f'{scope_fi.fq}: unsupported statement in decorator: {ast.unparse(st)[:60]}')
 
+    def _helper_call(self, tgt, c, env, module, scope_fi, events, site):
+        args = [self.ev(a, env, module, scope_fi) for a in c.args]
+        kwargs = {k.arg: self.ev(k.value, env, module, scope_fi) for k in c.keywords}
+        env2 = self.bind_call(tgt, args, kwargs, f'{module.name}:{getattr(c, "lineno", "?")}')
+        if '__classattrs__' in env:
+            env2['__classattrs__'] = env['__classattrs__']
+        self._exec_factory_body(tgt.node.body, env2, tgt, events, site)
+        if '__classattrs__' in env2:
+            env['__classattrs__'] = env2['__classattrs__']
+        return True
+
     def _delegated(self, c, env, module, scope_fi, events, site):
         """`other_decorator(target)` / `factory(args)(target)` inside a decorator: apply that decorator in turn."""
-        if len(c.args) != 1 or c.keywords:
+        if (len(c.args) != 1 or c.keywords) and not isinstance(c.func, (ast.Name, ast.Attribute)):
             return False
         app = None
+        if len(c.args) != 1 or c.keywords:
+            d = module.dotted(c.func)
+            tgt = self.P.lookup(d) if d else None
+            if isinstance(tgt, FuncInfo) and tgt.parent is None and not any(isinstance(x, ast.FunctionDef) for x in tgt.node.body):
+                return self._helper_call(tgt, c, env, module, scope_fi, events, site)
+            return False
         if isinstance(c.func, ast.Name) and isinstance(env.get(c.func.id), tuple) and env[c.func.id][:1] == ('factory-app',):
             app = env[c.func.id][1:]
         elif isinstance(c.func, ast.Call):
@@ -471,6 +488,11 @@ class Registry:
                 app = (fac[0], fac[1], [self.ev(a, env, module, scope_fi) for a in c.func.args],
                        {k.arg: self.ev(k.value, env, module, scope_fi) for k in c.func.keywords})
         if app is None:
+            # a plain helper of the package doing (part of) the registration: interpret its body with the arguments bound
+            d = module.dotted(c.func) if isinstance(c.func, (ast.Name, ast.Attribute)) else None
+            tgt = self.P.lookup(d) if d else None
+            if isinstance(tgt, FuncInfo) and tgt.parent is None and not any(isinstance(x, ast.FunctionDef) for x in tgt.node.body):
+                return self._helper_call(tgt, c, env, module, scope_fi, events, site)
             return False
         f2, pre2, a2, k2 = app
         target = self.ev(c.args[0], env, module, scope_fi)
